@@ -8,11 +8,14 @@
                                  tryPanicMarker frame is popped without running catch or finally; at the first marker
                                  frame the call stack is truncated to tf.callStackLen and the payload is re-panicked
     vm.go:854  try / 868 runTry / func.go:414 __call     marker frame pushed, `defer vm.popTryFrame()`
-    func.go:762 generator.enter / 863 enterNext         pushCtx, marker frame, extra frame; popTryFrame()/popCtx() of the
-                                 callers (next, nextThrow, asyncRunner.start, generatorObject.init) are NOT deferred
-                                 (`leaky` frames below — see the witness theorem in Props.lean and design/C15.md)
+    func.go:762 generator.enter / enterNext            pushCtx, marker frame, extra frame; the callers' popTryFrame()/popCtx()
+                                 are not deferred, but generator.step (func.go:798, fix e8f901b) drops, on the panic path,
+                                 the activation's try frames down to and including its marker (tryStack[:tryStackLen-1]);
+                                 the context pushed by enter() is left to the enclosing frame's handleThrow (`gen` frames below)
+    vm.go handleThrow → _restoreStacks(…, ex != nil)   (fix 5d979ec) iterators are NOT closed when the payload is uncatchable
     runtime.go:1437 RunProgram / 2504 runWrapped         recover: uncatchable → err; `len(callStack)==0` → leaveAbrupt()
-    runtime.go:2836 leave (double-buffered job loop) / 2849 leaveAbrupt (jobQueue = nil; ClearInterrupt())
+    runtime.go leave (double-buffered job loop) / leaveAbrupt (jobQueue = nil; ClearInterrupt(); vm.prg = nil; vm.sb = -1)
+    runtime.go Runtime.Try (fix 9e5aa04): an uncatchable passing through at depth 0 runs leaveAbrupt, then re-panics
 
   Programs are structured abstract scripts; the Go harness renders the same program to JavaScript.
   Core Lean only.
@@ -26,7 +29,7 @@ inductive Stmt where
   | throw                                           -- `T`     throw new Error
   | loop (n : Nat) (body : List Stmt)               -- `W n (body)`
   | tryc (hasCatch hasFin : Bool) (body cat fin : List Stmt)     -- `Y c f (body) (catch) (finally)`
-  | native (leaky swIntr swThrow : Bool) (reps : Nat) (body : List Stmt)
+  | native (gen swIntr swThrow : Bool) (reps : Nat) (body : List Stmt)
       -- a built-in / Go function that re-enters the VM `reps` times, each time running `body` in a nested run loop
   | enqueue (job : List Stmt)                       -- `Q (job)`  Promise.resolve().then(job)
   | forOf (n : Nat) (brk : Bool) (next body ret : List Stmt)     -- `F n brk (next) (body) (return)`
@@ -109,8 +112,8 @@ structure St where
   queue : List (List Stmt) := []  -- r.jobQueue
   cs : Nat := 0                   -- len(vm.callStack)
   ts : List TF := []              -- vm.tryStack, top first
-  leaked : Bool := false          -- ghost: an uncatchable error passed through a generator/async frame
   execs : Nat := 0                -- ghost: statements executed (polls passed)
+  frozen : List Ev := []          -- ghost: the event log at the instant Interrupt(v) was called by a probe
 
 /-- k-th probe interrupts with value v (k = 0: never). -/
 structure Cfg where
@@ -119,22 +122,22 @@ structure Cfg where
 
 def doProbe (c : Cfg) (st : St) : St :=
   let st1 := { st with log := st.log ++ [Ev.p], probes := st.probes + 1 }
-  if c.k ≠ 0 ∧ st1.probes = c.k then { st1 with flag := true, val := c.v }   -- vm.Interrupt(v), vm.go:685
+  if c.k ≠ 0 ∧ st1.probes = c.k then { st1 with flag := true, val := c.v, frozen := st1.log }   -- vm.Interrupt(v)
   else st1
 
-def enterFrame (leaky : Bool) (st : St) : St :=
-  if leaky then { st with cs := st.cs + 2, ts := markerTF (st.cs + 1) :: st.ts }   -- generator.enterNext
-  else { st with cs := st.cs + 1, ts := markerTF st.cs :: st.ts }                   -- __call / try / runTry
+/-- Entering a native frame that re-enters the VM.  `gen` = generator.enter/enterNext (pushCtx, marker, extra
+    frame); otherwise __call / vm.try / runTry (marker, then one context). -/
+def enterFrame (gen : Bool) (st : St) : St :=
+  if gen then { st with cs := st.cs + 2, ts := markerTF (st.cs + 1) :: st.ts }
+  else { st with cs := st.cs + 1, ts := markerTF st.cs :: st.ts }
 
-/-- A frame sees the uncatchable panic: its own recover runs handleThrow, re-panics; a deferred
-    popTryFrame runs only for non-leaky frames. -/
-def unwindFrame (leaky : Bool) (st : St) : St :=
-  let r := unwindNone st.ts st.cs
-  if leaky then { st with ts := r.1, cs := r.2, leaked := true }
-  else { st with ts := r.1.tail, cs := r.2 }
+def Outcome.isAbort : Outcome → Bool
+  | .intr _ => true
+  | .oof => true
+  | _ => false
 
 mutual
-/-- One statement = poll, then execute (vm.go:628–635). -/
+/-- One statement = poll, then execute (vm.go run loop). -/
 def exec : Nat → Cfg → Stmt → St → Outcome × St
   | 0, _, _, st => (.oof, st)
   | fuel + 1, c, s, st =>
@@ -146,25 +149,20 @@ def exec : Nat → Cfg → Stmt → St → Outcome × St
     | .throw => (.thrown, st)
     | .enqueue job => (.normal, { st with queue := st.queue ++ [job] })
     | .loop n body => execLoop fuel c n body st
-    | .native leaky swI swT reps body => execNative fuel c leaky swI swT reps body st
+    | .native g swI swT reps body => execNative fuel c g swI swT reps body st
     | .forOf n brk next body ret => execForOf fuel c 0 n brk next body ret st
     | .tryc hc hf body cat fin =>
-      let st0 := { st with ts := handlerTF st.cs hc hf :: st.ts }
-      match execBlock fuel c body st0 with
-      | (.intr v, st1) => (.intr v, st1)     -- frame stays for the enclosing handleThrow, which skips it
-      | (.oof, st1) => (.oof, st1)
-      | (o1, st1) =>
-        let st1 := { st1 with ts := st.ts, cs := st.cs }
-        let r2 := if o1 = .thrown ∧ hc then execBlock fuel c cat st1 else (o1, st1)
-        match r2 with
-        | (.intr v, st2) => (.intr v, st2)
-        | (.oof, st2) => (.oof, st2)
-        | (o2, st2) =>
-          if hf then
-            match execBlock fuel c fin st2 with
-            | (.normal, st3) => (o2, st3)
-            | (o3, st3) => (o3, st3)
-          else (o2, st2)
+      let r1 := execBlock fuel c body { st with ts := handlerTF st.cs hc hf :: st.ts }
+      -- uncatchable: no Go frame here; the try frame stays for the enclosing handleThrow, which skips it
+      if r1.1.isAbort then r1 else
+      let st1 := { r1.2 with ts := st.ts, cs := st.cs }
+      let r2 := if r1.1 = .thrown ∧ hc = true then execBlock fuel c cat st1 else (r1.1, st1)
+      if r2.1.isAbort then r2 else
+      if hf then
+        -- enterFinally clears catchPos (fix 379f30d): a throw from here is not caught by this statement
+        let r3 := execBlock fuel c fin r2.2
+        if r3.1 = .normal then (r2.1, r3.2) else r3
+      else r2
 
 /-- A block; the run loop polls once more after the last statement (there is always a following
     instruction: jump, ret, or the halt test which comes after the poll). -/
@@ -172,96 +170,101 @@ def execBlock : Nat → Cfg → List Stmt → St → Outcome × St
   | 0, _, _, st => (.oof, st)
   | _ + 1, _, [], st => if st.flag then (.intr st.val, st) else (.normal, st)
   | fuel + 1, c, s :: rest, st =>
-    match exec fuel c s st with
-    | (.normal, st1) => execBlock fuel c rest st1
-    | r => r
+    let r := exec fuel c s st
+    if r.1 = .normal then execBlock fuel c rest r.2 else r
 
 def execLoop : Nat → Cfg → Nat → List Stmt → St → Outcome × St
   | 0, _, _, _, st => (.oof, st)
   | _ + 1, _, 0, _, st => (.normal, st)
   | fuel + 1, c, n + 1, body, st =>
-    match execBlock fuel c body st with
-    | (.normal, st1) => execLoop fuel c n body st1
-    | r => r
+    let r := execBlock fuel c body st
+    if r.1 = .normal then execLoop fuel c n body r.2 else r
 
 /-- A native frame that re-enters the VM: nested run loop over `body`. -/
 def execFrame : Nat → Cfg → Bool → Bool → Bool → List Stmt → St → Outcome × St
   | 0, _, _, _, _, _, st => (.oof, st)
-  | fuel + 1, c, leaky, swI, swT, body, st =>
-    match execBlock fuel c body (enterFrame leaky st) with
-    | (.normal, st1) => (.normal, { st1 with ts := st.ts, cs := st.cs })
-    | (.thrown, st1) => (if swT then .normal else .thrown, { st1 with ts := st.ts, cs := st.cs })
-    | (.oof, st1) => (.oof, st1)
-    | (.intr v, st1) =>
-      let st2 := unwindFrame leaky st1
-      if swI then (.normal, st2) else (.intr v, st2)
+  | fuel + 1, c, g, swI, swT, body, st =>
+    let r := execBlock fuel c body (enterFrame g st)
+    match r.1 with
+    | .normal => (.normal, { r.2 with ts := st.ts, cs := st.cs })
+    | .thrown => (if swT then .normal else .thrown, { r.2 with ts := st.ts, cs := st.cs })
+    | .oof => r
+    | .intr v =>
+      -- the frame's own recover runs handleThrow(ex = nil) and re-panics
+      let u := unwindNone r.2.ts r.2.cs
+      if g then
+        -- generator.step: tryStack = tryStack[:tryStackLen-1]; popCtx() is skipped; generator.next re-panics always
+        (.intr v, { r.2 with ts := st.ts, cs := u.2 })
+      else if swI then (.normal, { r.2 with ts := u.1.tail, cs := u.2 })    -- deferred popTryFrame; Go caller ignores err
+      else (.intr v, { r.2 with ts := u.1.tail, cs := u.2 })
 
 def execNative : Nat → Cfg → Bool → Bool → Bool → Nat → List Stmt → St → Outcome × St
   | 0, _, _, _, _, _, _, st => (.oof, st)
   | _ + 1, _, _, _, _, 0, _, st => (.normal, st)
-  | fuel + 1, c, leaky, swI, swT, reps + 1, body, st =>
-    match execFrame fuel c leaky swI swT body st with
-    | (.normal, st1) => execNative fuel c leaky swI swT reps body st1
-    | r => r
+  | fuel + 1, c, g, swI, swT, reps + 1, body, st =>
+    let r := execFrame fuel c g swI swT body st
+    if r.1 = .normal then execNative fuel c g swI swT reps body r.2 else r
 
 def execForOf : Nat → Cfg → Nat → Nat → Bool → List Stmt → List Stmt → List Stmt → St → Outcome × St
   | 0, _, _, _, _, _, _, _, st => (.oof, st)
   | fuel + 1, c, i, n, brk, next, body, ret, st =>
-    match execFrame fuel c false false false next st with
-    | (.normal, st1) =>
+    let r1 := execFrame fuel c false false false next st
+    if r1.1 = .normal then
       if i < n then
-        match execBlock fuel c body st1 with
-        | (.normal, st2) =>
-          if brk then execFrame fuel c false false false ret st2
-          else execForOf fuel c (i + 1) n brk next body ret st2
-        | (.thrown, st2) =>
-          match execFrame fuel c false false false ret st2 with
-          | (.intr v, st3) => (.intr v, st3)
-          | (.oof, st3) => (.oof, st3)
-          | (_, st3) => (.thrown, st3)
-        | r => r
-      else (.normal, st1)
-    | r => r
+        let r2 := execBlock fuel c body r1.2
+        if r2.1 = .normal then
+          if brk then execFrame fuel c false false false ret r2.2
+          else execForOf fuel c (i + 1) n brk next body ret r2.2
+        else if r2.1 = .thrown then
+          -- ex != nil: _restoreStacks closes the iterator; its own exception is dropped, an uncatchable one is not
+          let r3 := execFrame fuel c false false false ret r2.2
+          if r3.1.isAbort then r3 else (.thrown, r3.2)
+        else r2       -- uncatchable: iterators are NOT closed (fix 5d979ec)
+      else r1
+    else r1
 end
 
-/-- runtime.go:2836 leave(): `for len(q)>0 { jobs, q = q, jobs[:0]; for job in jobs { job() } }`.
+/-- runtime.go leave(): `for len(q)>0 { jobs, q = q, jobs[:0]; for job in jobs { job() } }`.
     `batch` is the local slice; it is lost when a job panics. -/
 def runJobs : Nat → Cfg → List (List Stmt) → St → Outcome × St
   | 0, _, _, st => (.oof, st)
   | fuel + 1, c, [], st =>
     match st.queue with
     | [] => (.normal, st)
-    | q => runJobs fuel c q { st with queue := [] }
+    | j :: q => runJobs fuel c (j :: q) { st with queue := [] }
   | fuel + 1, c, job :: batch, st =>
-    match execFrame fuel c false false true job st with
-    | (.normal, st1) => runJobs fuel c batch st1
-    | r => r
+    let r := execFrame fuel c false false true job st
+    if r.1 = .normal then runJobs fuel c batch r.2 else r
 
-/-- runtime.go:2849 -/
+/-- runtime.go leaveAbrupt -/
 def leaveAbrupt (st : St) : St := { st with queue := [], flag := false }
 
-/-- The deferred function of RunProgram (runtime.go:1440) / runWrapped (2505) after an uncatchable error. -/
+/-- The deferred function of RunProgram / runWrapped / Runtime.Try after an uncatchable error. -/
 def apiRecover (v : Nat) (st : St) : Outcome × St :=
   if st.cs = 0 then (.intr v, leaveAbrupt st) else (.intr v, st)
 
-/-- An outermost-or-nested API call (RunProgram or a Callable): context + marker frame, run, leave. -/
-def apiCall (fuel : Nat) (c : Cfg) (prog : List Stmt) (st : St) : Outcome × St :=
-  let st0 := { st with cs := st.cs + 1, ts := markerTF (st.cs + 1) :: st.ts }
-  match execBlock fuel c prog st0 with
-  | (.oof, st1) => (.oof, st1)
-  | (.intr v, st1) =>
-    let r := unwindNone st1.ts st1.cs
-    apiRecover v { st1 with ts := r.1.tail, cs := r.2 - 1 }
-  | (o, st1) =>
-    let st2 := { st1 with ts := st.ts, cs := st.cs }
-    if st.cs = 0 then
-      match runJobs fuel c [] st2 with
-      | (.intr v, st3) => apiRecover v st3
-      | (.oof, st3) => (.oof, st3)
-      | (_, st3) => (o, st3)
+/-- An outermost-or-nested API call (RunProgram or a Callable): context + marker frame, run, leave.
+    `jobs = false`: Runtime.Try, which does not call leave() (queued jobs stay for the next call). -/
+def apiCallJ (jobs : Bool) (fuel : Nat) (c : Cfg) (prog : List Stmt) (st : St) : Outcome × St :=
+  let r := execBlock fuel c prog { st with cs := st.cs + 1, ts := markerTF (st.cs + 1) :: st.ts }
+  match r.1 with
+  | .oof => r
+  | .intr v =>
+    let u := unwindNone r.2.ts r.2.cs
+    apiRecover v { r.2 with ts := u.1.tail, cs := u.2 - 1 }
+  | o =>
+    let st2 := { r.2 with ts := st.ts, cs := st.cs }
+    if st.cs = 0 ∧ jobs = true then
+      let rj := runJobs fuel c [] st2
+      match rj.1 with
+      | .intr v => apiRecover v rj.2
+      | .oof => rj
+      | _ => (o, rj.2)
     else (o, st2)
 
-/-- Harness kinds of `N kind reps (body)` → (leaky, swallowInterrupt, swallowThrow). Kind 3 is a generator
+def apiCall := apiCallJ true
+
+/-- Harness kinds of `N kind reps (body)` → (gen, swallowInterrupt, swallowThrow). Kind 3 is a generator
     body; 6 and 7 are Go functions that ignore the error of the nested call. -/
 def kindAttrs (kind : Nat) : Bool × Bool × Bool :=
   match kind % 13 with
@@ -269,5 +272,11 @@ def kindAttrs (kind : Nat) : Bool × Bool × Bool :=
   | 6 => (false, true, true)
   | 7 => (false, true, true)
   | _ => (false, false, false)
+
+/-- OLD mechanism (before fix e8f901b), kept only for the regression lemmas `…_prefix_witness`: a generator frame
+    did not pop its marker on the panic path. -/
+def unwindFrameOld (leaky : Bool) (st : St) : St :=
+  let r := unwindNone st.ts st.cs
+  if leaky then { st with ts := r.1, cs := r.2 } else { st with ts := r.1.tail, cs := r.2 }
 
 end GojaModel.C15
